@@ -197,9 +197,12 @@ class Runnable(ABC):  # pylint: disable=too-many-instance-attributes
         """
         Stop the service, allowing any do() to complete first.
         """
+        if forever:
+            # set before the loop is told to stop (it reads the flag in its finally block), and never
+            # revoked by a later or overlapping non-final stop
+            self.__shutdown = True
         self.__stopping = True
         self.wake()
-        self.__shutdown = forever
         thread = self.__thread  # otherwise race condition -- self.__thread can change value in another thread
         if thread:
             if threading.current_thread() != thread:
